@@ -165,7 +165,7 @@ NOTES = {
     "C15-m": "first miss (p): laws never counted -> one atom k times matches iff k tags match it",
     "C15-n": "first miss (p): batches of queries were all well-formed -> a malformed query before well-formed ones",
     "C17-m": "first miss (p): merged runs had equal durations -> durations 1, 10, 1",
-    "C18-m": "not detected: needs a file with a BIDS `task-go` name on which the operations are a no-op, edited after the backup, and `remodel -t go`; the trees of C18 use the `task_go` form `BackupManager` understands (see section 7a on the two name forms)",
+    "C18-m": "first miss: the trees used the `task_go` form `BackupManager` understands, on which a task-filtered run does nothing -> `bids_named_check`: files named `task-go`, one of them untouched by the operations, edits after the backup, `remodel -t go` once and twice",
     "C19-n": "first miss: nothing watched *where* the lock ends -> H6 monitor: every download by the refresher happens while it holds the lock",
     "C19-h": "first miss: at most two refresh attempts per directory -> every history of <= 4 gaps from {1 s, T-1, T, 2T} against a one-number model",
 }
